@@ -33,6 +33,21 @@ def byronOut (crc2 : Nat) : ByronRes → Option String
   | .err e => some ("err:" ++ e.str)
   | .unsupported => none
 
+/-- one base-128 number, most significant group first, continuation bit 0x80, no wrap:
+    (value, minimal?, rest) -/
+def specVarGo : Bytes → Nat → Option (Nat × Bytes)
+  | [], _ => none
+  | x :: r, acc =>
+    let v := acc * 128 + x.toNat % 128
+    if x.toNat < 128 then some (v, r) else specVarGo r v
+
+def specVar (b : Bytes) : Option (Nat × Bool × Bytes) :=
+  match specVarGo b 0 with
+  | none => none
+  | some (v, r) =>
+    let lead := match b with | x :: _ => x.toNat != 128 | [] => true
+    some (v, lead && decide (v < 18446744073709551616), r)
+
 /-- what the property demands of `NewAddressFromBytes` on Shelley-family bytes, stated from the
     header byte and the length alone -/
 def specRaw (b : Bytes) : String :=
@@ -65,8 +80,26 @@ def specRaw (b : Bytes) : String :=
             s!"ok t={t} n={n} pay=none stake={s} extra=- bytes={toHex b} hrp={if n = 1 then "stake" else "stake_test"} acc=1 rt=1"
         else if n = 0 then "err:*" else "*"
       else
-        -- pointer addresses: variable length
-        if rest.length < 31 then "err:*" else "*"
+        -- pointer addresses: variable length.  Stated independently of the model: read three
+        -- base-128 numbers without any wrap; when each is minimal (no leading 0x80 group, fits 64
+        -- bits) and nothing follows, the address must be accepted with exactly these components
+        -- and must re-encode to the very same bytes (Bytes / String round trip).
+        if rest.length < 28 then "err:*" else
+        let p := (if t = 4 then "key:" else "script:") ++ toHex (rest.take 28)
+        match specVar (rest.drop 28) with
+        | none => "err:*"
+        | some (s1, m1, r1) =>
+          match specVar r1 with
+          | none => "err:*"
+          | some (s2, m2, r2) =>
+            match specVar r2 with
+            | none => "err:*"
+            | some (s3, m3, r3) =>
+              if m1 && m2 && m3 then
+                if r3.isEmpty then
+                  s!"ok t={t} n={n} pay={p} stake=ptr:{s1}/{s2}/{s3} extra=- bytes={toHex b} hrp={if n = 1 then "addr" else "addr_test"} acc=1 rt=1"
+                else if n = 0 then "err:*" else "*"
+              else "*"
 
 def parseCrc (s : String) : Option Nat := if s = "-" then some 0 else parseNat? s
 
